@@ -50,7 +50,8 @@ const SJIS_ATOMS: &[&str] = &["a", "n", "\\", "\n", "\\n", "あ", " ", "ｱ"];
 
 fn gen_cfg(_prop: &str, _tier: Tier, run_seed: u64) -> Value {
     let mut r = Rng::sub(run_seed, "cfg");
-    json!({ "unicode": r.chance(1, 2), "big": r.chance(1, 2), "max_ops": r.range(8, 60) })
+    let swarm: Vec<u32> = (0..8).map(|_| *r.pick(&[0u32, 1, 1, 1, 2, 4])).collect();
+    json!({ "unicode": r.chance(1, 2), "big": r.chance(1, 2), "max_ops": r.range(8, 60), "swarm": swarm })
 }
 
 #[derive(Clone, Debug, PartialEq)]
@@ -110,13 +111,19 @@ fn gen_msg(r: &mut Rng, unicode: bool) -> String {
     s
 }
 
-fn gen_op(r: &mut Rng, m: &TextModel, unicode: bool) -> Op {
+fn gen_op(r: &mut Rng, m: &TextModel, unicode: bool, swarm: &[u32]) -> Op {
     let k = if !m.entries.is_empty() && r.chance(1, 2) {
         m.entries[r.below(m.entries.len())].0.clone()
     } else {
         r.pick(KEYS).to_string()
     };
-    match r.weighted(&[34, 20, 6, 10, 3, 10, 7, 10]) {
+    let mut wts = [34u32, 20, 6, 10, 3, 10, 7, 10];
+    for (i, f) in swarm.iter().enumerate().take(8) {
+        wts[i] *= f;
+    }
+    wts[0] = wts[0].max(10);
+    wts[1] = wts[1].max(5);
+    match r.weighted(&wts) {
         0 => Op::Set { k, m: gen_msg(r, unicode) },
         1 => Op::Delete { k },
         2 => Op::Has { k },
@@ -187,6 +194,7 @@ fn run(cfg: &Value, ctx: &mut RunCtx) -> Step<()> {
     let unicode = cfg["unicode"].as_bool().unwrap_or(true);
     let big = cfg["big"].as_bool().unwrap_or(false);
     ctx.max_ops = cfg["max_ops"].as_u64().unwrap_or(30) as usize;
+    let swarm: Vec<u32> = cfg["swarm"].as_array().map(|a| a.iter().map(|x| x.as_u64().unwrap_or(1) as u32).collect()).unwrap_or_else(|| vec![1; 8]);
     let format = if unicode { TextArchiveFormat::Unicode } else { TextArchiveFormat::ShiftJIS };
     let endian = if big { Endian::Big } else { Endian::Little };
     let mut a = ctx.mila("TextArchive::new", || TextArchive::new(format, endian))?;
@@ -197,7 +205,7 @@ fn run(cfg: &Value, ctx: &mut RunCtx) -> Step<()> {
     let mut deletes = 0;
     let mut reloads = 0;
     loop {
-        let op: Op = match ctx.next_op(|_c| Some(gen_op(&mut rng, &m, unicode)))? {
+        let op: Op = match ctx.next_op(|_c| Some(gen_op(&mut rng, &m, unicode, &swarm)))? {
             Some(o) => o,
             None => break,
         };
